@@ -91,10 +91,25 @@ def run_row(row):
     f, s, out = row["f"], row["s"], row["out"]
     bad = []
 
+    def scribble(x, depth=0):
+        if isinstance(x, list):
+            for e in x:
+                if depth < 2:
+                    scribble(e, depth + 1)
+            x.append("scribbled")
+            x.reverse()
+
     def chk(variant, thunk, expect=None, post=norm):
         exp = out if expect is None else expect
         try:
-            got = post(thunk())
+            res = thunk()
+            got = post(res)
+            if ("/str" in variant or "/tuple" in variant or "/bytes" in variant) and isinstance(res, list):
+                # hashable input: the result must be the caller's own - change it, ask again, expect the same answer
+                scribble(res)
+                again = post(thunk())
+                if again != got:
+                    got = {"second-call-after-the-caller-changed-the-first-result": again}
         except Exception as ex:
             got = "raised:" + core.exc_name(ex)
         if got != exp:
